@@ -1,4 +1,5 @@
 import QV.Proofs.Tools
+import QV.Proofs.Anf
 /-!
 # C17 — Command-line tools print what the library computes
 
@@ -420,5 +421,130 @@ example : Selects [⟨"zeta", some 0⟩, ⟨"helper", none⟩, ⟨"alpha", some 
 
 example : Selects [⟨"qlassf", none⟩, ⟨"only", some 0⟩] none 0 :=
   Or.inr ⟨rfl, "only", by decide⟩
+
+/-! ## the algebraic normal form is computed, not assumed
+
+`/repo` fbcfb53: `py2bexp.to_anf(expr) = ANFform(sorted(expr.free_symbols, key=str), truth table values)`.
+Model: `QV/Model/Anf.lean` (`anfOf`); the other three forms stay parameters. -/
+open QV.Anf
+
+/-- sympy's rounds over blocks (`anf_coeffs`) compute the transform by halves, for every `n` -/
+theorem anf_coeffs_butterfly (n : Nat) (t : List Bool) (h : t.length = 2 ^ n) :
+    anfCoeffs n t = mobius n t := by
+  simp [anfCoeffs, rounds_singletons n t h]
+
+/-- hence the monomials obtained through the rounds are those obtained by halves -/
+theorem anf_butterfly_same (e : BExp) : anfTermsButterfly e = anfTerms e := by
+  simp only [anfTermsButterfly, anfTerms]
+  rw [anf_coeffs_butterfly _ _ (length_table e _ _)]
+
+/-- **the ANF built from the truth table means the expression**, at every assignment, for every
+expression (any number of variables) -/
+theorem anf_of_table_sound (e : BExp) (ρ : Env) : (anfOf e).eval ρ = e.eval ρ := by
+  simp only [anfOf, anfTerms, xorExp_eval, evalXor_terms, pe_mobius_table]
+  apply eval_congr
+  intro s hs
+  exact ovr_mem ρ s _ _ ((mem_vars e s).2 hs)
+
+/-- every symbol of the ANF is a symbol of the expression -/
+theorem anf_no_new_symbols (e : BExp) : ∀ s ∈ (anfOf e).syms, s ∈ e.syms := by
+  intro s hs
+  rw [anfOf, syms_xorExp, mem_symsList_map] at hs
+  obtain ⟨m, hm, hsm⟩ := hs
+  exact (mem_vars e s).1 (mem_monos _ m (mem_terms _ _ m hm) s hsm)
+
+/-- what is still assumed of sympy: `to_cnf/to_dnf/to_nnf` only — nothing about the form `anf` -/
+structure NFSpecRest (nf : NF) : Prop where
+  total : ∀ f e, f ≠ .anf → ∃ r, nf f e = .ok r
+  sound : ∀ f e r, f ≠ .anf → nf f e = .ok r → ∀ ρ, r.eval ρ = e.eval ρ
+  cnfShape : ∀ e r, nf .cnf e = .ok r →
+    ∃ cs : List Clause, r = cnfBExp cs ∧ ∀ s ∈ clauseVars cs, s ∈ e.syms
+
+/-- the modelled ANF meets the spec the model assumed of the parameter: with `to_anf` computed,
+`NFSpec` follows from the assumptions on the other three forms alone -/
+theorem anf_meets_NFSpec (nf : NF) (h : NFSpecRest nf) : NFSpec (withAnf nf) where
+  total := by
+    intro f e
+    cases f with
+    | anf => exact ⟨anfOf e, rfl⟩
+    | sympy => exact h.total .sympy e (by decide)
+    | cnf => exact h.total .cnf e (by decide)
+    | dnf => exact h.total .dnf e (by decide)
+    | nnf => exact h.total .nnf e (by decide)
+  sound := by
+    intro f e r hr ρ
+    cases f with
+    | anf =>
+      have : r = anfOf e := by simpa [withAnf] using hr.symm
+      rw [this]; exact anf_of_table_sound e ρ
+    | sympy => exact h.sound .sympy e r (by decide) hr ρ
+    | cnf => exact h.sound .cnf e r (by decide) hr ρ
+    | dnf => exact h.sound .dnf e r (by decide) hr ρ
+    | nnf => exact h.sound .nnf e r (by decide) hr ρ
+  cnfShape := fun e r hr => h.cnfShape e r hr
+
+/-- **C17 with the ANF computed**: the full statement for the tool whose `to_anf` is the modelled
+algorithm; the only hypotheses about normal forms concern `cnf`, `dnf`, `nnf` -/
+theorem C17_full_anf (nf : NF) (hnf : NFSpecRest nf)
+    (fnDefs : Nat → List String × Defs) (bs : List Binding) (ep : Option String) (i : Nat)
+    (hsel : Selects bs ep i) :
+    (∀ (form : Form) (fmt : Format) (order : List String), order.Nodup →
+      (∀ r r1, convertToBoolExpression Quirks.none (withAnf nf) form
+          (combined Quirks.none (fnDefs i).1 (fnDefs i).2) = .ok r →
+        dimacsInput Quirks.none (withAnf nf) form r = .ok r1 → ∀ s ∈ r1.syms, s ∈ order) →
+      ∃ p, py2bexpMain Quirks.none (withAnf nf) fnDefs bs ep form fmt order = some (.ok p)
+        ∧ PrintedOk order (fnDefs i).1 (fnDefs i).2 p)
+    ∧ (∀ (compile : String → Nat → QCirc) (compiler ver : String),
+        py2qasmStdout compile bs ep compiler ver
+          = some (exportQasm (if ver = "3.0" then 3 else 2) (compile compiler i) ++ "\n")) :=
+  C17_full (withAnf nf) (anf_meets_NFSpec nf hnf) fnDefs bs ep i hsel
+
+/-- `py2bexp -f anf` (sympy format): what is printed is the modelled ANF of the conjunction of the
+return bits, it means that conjunction, and **nothing** is assumed of sympy (any `nf`) -/
+theorem py2bexp_prints_anf (nf : NF) (fnDefs : Nat → List String × Defs) (bs : List Binding)
+    (ep : Option String) (i : Nat) (hsel : Selects bs ep i) (order : List String) :
+    py2bexpMain Quirks.none (withAnf nf) fnDefs bs ep .anf .sympy order
+        = some (.ok (.expr (anfOf (combined Quirks.none (fnDefs i).1 (fnDefs i).2))))
+      ∧ ∀ ρ, (anfOf (combined Quirks.none (fnDefs i).1 (fnDefs i).2)).eval ρ
+          = retConj ρ (fnDefs i).1 (fnDefs i).2 := by
+  refine ⟨?_, fun ρ => ?_⟩
+  · simp [py2bexpMain, selects_sound bs ep i hsel, py2bexpOutput, convertToBoolExpression, nfCall,
+      Quirks.none, withAnf]
+  · rw [anf_of_table_sound, bexp_equiv_full]
+
+/-- `~(a ^ ~a)` (where sympy 1.12 `to_anf` answered `True`): no monomial, the ANF is `False` -/
+example : vars (.not (.xor [.sym "a", .not (.sym "a")])) = ["a"]
+    ∧ anfTerms (.not (.xor [.sym "a", .not (.sym "a")])) = []
+    ∧ (anfOf (.not (.xor [.sym "a", .not (.sym "a")])) == .ff) = true := by
+  have hv : vars (.not (.xor [.sym "a", .not (.sym "a")])) = ["a"] := by
+    unfold vars
+    rw [show dedupStrings (BExp.not (.xor [.sym "a", .not (.sym "a")])).syms = ["a"] from by decide]
+    simp
+  refine ⟨hv, ?_, ?_⟩
+  · simp only [anfTerms, hv]; decide
+  · simp only [anfOf, anfTerms, hv]; decide
+
+/-- `(a & b) | c` has the ANF `c ^ (a & b) ^ (a & b & c)` (index order: c, ab, abc) -/
+example : vars (.or [.and [.sym "a", .sym "b"], .sym "c"]) = ["a", "b", "c"]
+    ∧ anfTerms (.or [.and [.sym "a", .sym "b"], .sym "c"]) = [["c"], ["a", "b"], ["a", "b", "c"]]
+    ∧ (anfOf (.or [.and [.sym "a", .sym "b"], .sym "c"])
+        == .xor [.sym "c", .and [.sym "a", .sym "b"], .and [.sym "a", .sym "b", .sym "c"]]) = true := by
+  have hv : vars (.or [.and [.sym "a", .sym "b"], .sym "c"]) = ["a", "b", "c"] := by
+    unfold vars
+    rw [show dedupStrings (BExp.or [.and [.sym "a", .sym "b"], .sym "c"]).syms = ["a", "b", "c"] from by decide]
+    simp [List.mergeSort, List.MergeSort.Internal.splitInTwo]
+  refine ⟨hv, ?_, ?_⟩
+  · simp only [anfTerms, hv]; decide
+  · simp only [anfOf, anfTerms, hv]; decide
+
+/-- the variables are sorted by name whatever the order of occurrence -/
+example : vars (.or [.sym "c", .and [.sym "b", .sym "a"], .sym "c"]) = ["a", "b", "c"] := by
+  unfold vars
+  rw [show dedupStrings (BExp.or [.sym "c", .and [.sym "b", .sym "a"], .sym "c"]).syms = ["b", "a", "c"] from by decide]
+  simp [List.mergeSort, List.MergeSort.Internal.splitInTwo]
+
+/-- sympy's rounds on the table of `(a & b) | c` (`[0,1,0,1,0,1,1,1]`) -/
+example : anfCoeffs 3 [false, true, false, true, false, true, true, true]
+    = [false, true, false, false, false, false, true, true] := by decide
 
 end QV.C17
